@@ -523,6 +523,9 @@ def run(tier):
     total.merge(explore("%s-%s-purity" % (PROP, tier), purity_gen(tier), check, chunk=300, deadline=deadline))
     total.merge(explore("%s-%s-kinds" % (PROP, tier), kinds_gen(tier), check, chunk=300, deadline=deadline))
     total.merge(explore("%s-%s-locs" % (PROP, tier), locs_gen(tier), check, chunk=300, deadline=deadline))
+    from ..core import explore_gcc
+    total.merge(explore_gcc("%s-%s-kinds" % (PROP, tier), kinds_gen(tier), check, chunk=300, deadline=deadline))
+    total.merge(explore_gcc("%s-%s-locs" % (PROP, tier), locs_gen(tier), check, chunk=300, deadline=deadline))
     depth = 4 if tier == "thorough" else 3
     frontier = [(fam, []) for fam in INIT]
     seen = set()
